@@ -40,63 +40,55 @@ func (i *index) Clear() {
 	i.refs = map[string]string{}
 }
 
-func (i *index) putData(key string, item map[string]*types.Item) error {
-	indexKey, err := i.keySchema.GetKey(i.Table.AttributesDef, item)
-	if err != nil || indexKey == "" {
-		return err
+// set records indexKey as the current index key of the item stored under key,
+// an empty indexKey means that the item is not part of the index (indexes are sparse).
+// refs and sortedKeys are kept in step: sortedKeys is always the sorted multiset of the refs values.
+func (i *index) set(key, indexKey string) {
+	old, exists := i.refs[key]
+	if exists && old == indexKey {
+		return
 	}
 
-	_, exists := i.refs[key]
+	if exists {
+		delete(i.refs, key)
+
+		pos := sort.SearchStrings(i.sortedKeys, old)
+		if pos < len(i.sortedKeys) && i.sortedKeys[pos] == old {
+			copy(i.sortedKeys[pos:], i.sortedKeys[pos+1:])
+			i.sortedKeys[len(i.sortedKeys)-1] = ""
+			i.sortedKeys = i.sortedKeys[:len(i.sortedKeys)-1]
+		}
+	}
+
+	if indexKey == "" {
+		return
+	}
 
 	i.refs[key] = indexKey
 
-	if !exists {
-		i.sortedKeys = append(i.sortedKeys, indexKey)
-		sort.Strings(i.sortedKeys)
+	pos := sort.SearchStrings(i.sortedKeys, indexKey)
+	i.sortedKeys = append(i.sortedKeys, "")
+	copy(i.sortedKeys[pos+1:], i.sortedKeys[pos:])
+	i.sortedKeys[pos] = indexKey
+}
+
+func (i *index) putData(key string, item map[string]*types.Item) error {
+	indexKey, err := i.keySchema.GetKey(i.Table.AttributesDef, item)
+	if err != nil {
+		return err
 	}
+
+	i.set(key, indexKey)
 
 	return nil
 }
 
 func (i *index) updateData(key string, item, oldItem map[string]*types.Item) error {
-	indexKey, err := i.keySchema.GetKey(i.Table.AttributesDef, item)
-	if err != nil || indexKey == "" {
-		return err
-	}
-
-	old := i.refs[key]
-	i.refs[key] = indexKey
-
-	if old != indexKey {
-		pos := sort.SearchStrings(i.sortedKeys, old)
-		if pos >= len(i.sortedKeys) {
-			i.sortedKeys = append(i.sortedKeys, indexKey)
-		} else {
-			i.sortedKeys[pos] = indexKey
-		}
-
-		sort.Strings(i.sortedKeys)
-	}
-
-	return nil
+	return i.putData(key, item)
 }
 
 func (i *index) delete(key string, item map[string]*types.Item) error {
-	delete(i.refs, key)
-
-	indexKey, err := i.keySchema.GetKey(i.Table.AttributesDef, item)
-	if err != nil || indexKey == "" {
-		return err
-	}
-
-	pos := sort.SearchStrings(i.sortedKeys, indexKey)
-	if pos == len(i.sortedKeys) {
-		return err
-	}
-
-	copy(i.sortedKeys[pos:], i.sortedKeys[pos+1:])
-	i.sortedKeys[len(i.sortedKeys)-1] = ""
-	i.sortedKeys = i.sortedKeys[:len(i.sortedKeys)-1]
+	i.set(key, "")
 
 	return nil
 }
